@@ -382,7 +382,7 @@ def run_check(cid, tier, seed, workers=None, n_override=None, sigs_out=None):
     os.makedirs(REPLAYS, exist_ok=True)
     os.makedirs(EVIDENCE, exist_ok=True)
     n = n_override if n_override is not None else chk.cases[tier]
-    workers = workers or min(16, os.cpu_count() or 1)
+    workers = workers or int(os.environ.get("VERIF_WORKERS") or 0) or min(16, os.cpu_count() or 1)
     print("[fsim] check=%s tier=%s VERIF_SEED=%d cases=%d workers=%d" % (cid, tier, seed, n, workers), flush=True)
     jobs = [(cid, seed, tier, i, (i % 100 == 7)) for i in range(n)]
     results = []
